@@ -118,6 +118,13 @@ MEMBERS = {
     'read_before_bind': ["gx0 = 'pre:' + GX", "GX = 'member'", "gx1 = GX", "ln0 = len('abc')", "len = 'shadowed'", "ln1 = len",
                          "for _i in range(2):", "    if _i:", "        late = 'bound-on-second-pass'", "    seen_late = late if _i else 'not-yet'",
                          "def rb(self, a=GX, b=len):", "    return (a, b, GX)"],
+    # functions nested in a method that mention super / __class__ (implicit cell of the nearest class, PEP 3135)
+    'super_nested': ["def who(self):", "    def helper():", "        return 'N>' + (super(__class__, self).who() if hasattr(super(__class__, self), 'who') else '-')",
+                     "    def helper0(me, /, *rest):", "        return 'Z>' + (super().who() if hasattr(super(), 'who') else '-')",
+                     "    def deeper():", "        def deepest():", "            return __class__.__name__", "        return deepest()",
+                     "    return [helper(), helper0(self), deeper(), (lambda: super(__class__, self).__init__ is not None)()]"],
+    # a function of the body that only *mentions* super and is called while the body still runs
+    'super_mentioned_at_body_time': ["def _early():", "    return super.__name__", "early = _early()", "def m5(self, a=early):", "    return ('m5', a)"],
     'classcell': ["def cc(self):", "    return __class__.__name__", "def cc_super(self):", "    return super().__class__.__name__, super().__init__ is not None"],
 }
 CALLS = ('m', 'm5', 's', 'c', 'p', 'im', 'lam', 'who', 'who2', 'getpv', 'dd', 'md', 'tag', 'hello', 'd1', 'd2')
